@@ -608,7 +608,7 @@ func (c *Context) GetFunction(name string) (*BuiltinFunction, error) {
 	}
 	// Value exists, but unable to access in current scope
 	// In a subroutine of several scopes the function must be available in all of them
-	if obj.Value.Scopes&c.curMode != c.curMode {
+	if c.curMode == 0 || obj.Value.Scopes&c.curMode != c.curMode {
 		return nil, fmt.Errorf(
 			`function "%s" is not available in scope %s\nSee reference documentation: %s`,
 			name, ScopeString(c.curMode), obj.Value.Reference,
